@@ -119,53 +119,70 @@ def isMappingSchema (sub : Val) : Bool :=
   | .dict kvs => kvs.all (fun kv => kv.2.isMapping)
   | _ => false
 
+/-- `expand({0: x})[0]`, given the expansion of a field mapping -/
+def expandOne (expF : List (Key × Val) → Option (List (Key × Val))) (x : Val) : Option Val :=
+  match expF [(.i 0, x)] with
+  | some [(_, y)] => some y
+  | some _ => some x
+  | none => none
+
+/-- a constraint replaced by its expansion (when the expansion does not raise) -/
+def setExpanded (rs : List (Key × Val)) (rule : String) (e : Option Val) : Option (List (Key × Val)) :=
+  match e with
+  | some v => some (Val.dset rs (.s rule) v)
+  | none => none
+
+/-- `_expand_subschemas`, (1): the `schema` rule -/
+def subSchemaRule (expF : List (Key × Val) → Option (List (Key × Val))) (rs : List (Key × Val)) :
+    Option (List (Key × Val)) :=
+  match Val.dlookup rs (.s "schema") with
+  | some sub =>
+    if isMappingSchema sub then
+      match sub with
+      | .dict kvs => setExpanded rs "schema" ((expF kvs).map Val.dict)
+      | _ => some rs
+    else setExpanded rs "schema" (expandOne expF sub)
+  | none => some rs
+
+/-- (2a): the bulk rules -/
+def subBulkStep (expF : List (Key × Val) → Option (List (Key × Val))) (acc : List (Key × Val)) (r : String) :
+    Option (List (Key × Val)) :=
+  match Val.dlookup acc (.s r) with
+  | some c => setExpanded acc r (expandOne expF c)
+  | none => some acc
+
+/-- (2b): the rule set of the `allow_unknown` rule -/
+def subAllowUnknown (expF : List (Key × Val) → Option (List (Key × Val))) (rs : List (Key × Val)) :
+    Option (List (Key × Val)) :=
+  match Val.dlookup rs (.s "allow_unknown") with
+  | some (.dict au) => setExpanded rs "allow_unknown" (expandOne expF (.dict au))
+  | _ => some rs
+
+/-- (3): *of rules and items -/
+def subListStep (expF : List (Key × Val) → Option (List (Key × Val))) (acc : List (Key × Val)) (r : String) :
+    Option (List (Key × Val)) :=
+  match Val.dlookup acc (.s r) with
+  | some c =>
+    match (if c.isSequence then iterConstraint c else none) with
+    | some xs => setExpanded acc r ((xs.mapM (expandOne expF)).map (Val.seq false))
+    | none => some acc
+  | none => some acc
+
+/-- `_expand_subschemas` on one rule set, given the expansion of a field mapping: the constraints of the rules that
+    hold schemas or rule sets are expanded; the rule names stay as they are -/
+def subschemasWith (expF : List (Key × Val) → Option (List (Key × Val))) (rs : List (Key × Val)) :
+    Option (List (Key × Val)) :=
+  (subSchemaRule expF rs).bind fun rs1 =>
+  (["keysrules", "valuesrules", "keyschema", "valueschema"].foldlM (subBulkStep expF) rs1).bind fun rs2 =>
+  (subAllowUnknown expF rs2).bind fun rs3 =>
+  ["allof", "anyof", "items", "noneof", "oneof"].foldlM (subListStep expF) rs3
+
 /-- `expand(schema)` on a field mapping; `none` = RuntimeError from the renaming of
     deprecated names.  Fuel bounds the nesting depth (never exhausted for
     `fuel > depth of the value`). -/
 def expandFields : Nat → List (Key × Val) → Option (List (Key × Val))
   | 0, fields => some fields
   | n + 1, fields =>
-    let one (x : Val) : Option Val :=           -- `expand({0: x})[0]`
-      match expandFields n [(.i 0, x)] with
-      | some [(_, y)] => some y
-      | some _ => some x
-      | none => none
-    let subschemas (rs : List (Key × Val)) : Option (List (Key × Val)) := do
-      -- (1) the `schema` rule
-      let rs1 ← match Val.dlookup rs (.s "schema") with
-        | some sub =>
-          if isMappingSchema sub then
-            match sub with
-            | .dict kvs => do
-              let e ← expandFields n kvs
-              pure (Val.dset rs (.s "schema") (.dict e))
-            | _ => pure rs
-          else do
-            let e ← one sub
-            pure (Val.dset rs (.s "schema") e)
-        | none => pure rs
-      -- (2) bulk rules, and the rule set of the allow_unknown rule
-      let rs2 ← ["keysrules", "valuesrules", "keyschema", "valueschema"].foldlM (fun acc r =>
-          match Val.dlookup acc (.s r) with
-          | some c => do
-            let e ← one c
-            pure (Val.dset acc (.s r) e)
-          | none => pure acc) rs1
-      let rs3 ← match Val.dlookup rs2 (.s "allow_unknown") with
-        | some (.dict au) => do
-          let e ← one (.dict au)
-          pure (Val.dset rs2 (.s "allow_unknown") e)
-        | _ => pure rs2
-      -- (3) *of rules and items
-      ["allof", "anyof", "items", "noneof", "oneof"].foldlM (fun acc r =>
-          match Val.dlookup acc (.s r) with
-          | some c =>
-            match (if c.isSequence then iterConstraint c else none) with
-            | some xs => do
-              let es ← xs.mapM one
-              pure (Val.dset acc (.s r) (.seq false es))
-            | none => pure acc
-          | none => pure acc) rs3
     -- the three passes inside `try`
     let named := fields.map (fun kv => match kv.2 with
       | .dict rs => (kv.1, Val.dict (normalizeNames rs)) | _ => kv)
@@ -173,7 +190,7 @@ def expandFields : Nat → List (Key × Val) → Option (List (Key × Val))
     let subs : Option (List (Key × Val)) :=
       if aborted then some logical
       else logical.mapM (fun kv => match kv.2 with
-        | .dict rs => do pure (kv.1, Val.dict (← subschemas rs))
+        | .dict rs => do pure (kv.1, Val.dict (← subschemasWith (expandFields n) rs))
         | _ => pure kv)
     match subs with
     | none => none
